@@ -1,5 +1,6 @@
 (* RunRan.v — the "tests run" figure of a run (C12): without --repeat the total number of tests run that a run
-   reports is the number of test starts over all its processes (parent and layer subprocesses). *)
+   reports is the sum, over the test starts of all its processes (parent and layer subprocesses), of the started
+   test's countTestCases(). *)
 From ZT Require Import Base Layers LayersFacts Run RunFacts RunLedger RunOnce.
 
 Section N.
@@ -8,7 +9,7 @@ Variable o : ropts.
 Hypothesis Htests : forall t, In t (tests w) -> t_layer t < nlayers (lw w).
 Hypothesis Hreps : reps o = 1.
 
-Notation st := (total nstart_ev).
+Notation st := (total (nrun_ev w)).
 
 Lemma setup_layer_quiet_gen (f : ev -> nat) : (forall l h, f (ESetUp l h) = 0) ->
   forall fuel l p, total f (ps_ev (fst (setup_layer w fuel l p))) = total f (ps_ev p).
@@ -29,7 +30,7 @@ Lemma repeat1_ran l p :
   st (ps_ev (repeat_loop w o 1 l p)) = st (ps_ev p) + ps_ran (repeat_loop w o 1 l p).
 Proof.
   simpl. set (rs := run_seq w o l (tests_of w l) rs_init).
-  destruct (run_seq_ledger w o l (tests_of w l) rs_init (rs_init_ledger)) as [_ [_ [_ H4]]]. fold rs in H4.
+  destruct (run_seq_ledger w o l (tests_of w l) rs_init (fun t b H => proj1 (proj1 (tests_of_spec w l t b) H)) (rs_init_ledger w)) as [_ [_ [_ H4]]]. fold rs in H4.
   destruct (rs_stop rs); cbn [ps_ev ps_ran]; rewrite !total_app, H4; simpl; lia.
 Qed.
 
@@ -38,10 +39,10 @@ Lemma run_layer_ran l p :
   st (ps_ev p) + (if snd (run_layer w o l p) then 0 else ps_ran (fst (run_layer w o l p))).
 Proof.
   unfold run_layer, tear_down_unneeded.
-  pose proof (td_loop_quiet w nstart_ev (fun _ _ => eq_refl) (fun _ => eq_refl)
+  pose proof (td_loop_quiet w (nrun_ev w) (fun _ _ => eq_refl) (fun _ => eq_refl)
                 (rev (order_by_bases (lw w) (filter (fun x => negb (mem x (gather_layers (lw w) l))) (ps_setup p)))) false p) as Ht.
   destruct (td_loop w _ false p) as [p1 cannot]. simpl in Ht. destruct cannot; [simpl; lia|].
-  pose proof (setup_layer_quiet_gen nstart_ev (fun _ _ => eq_refl) (S (nlayers (lw w))) l p1) as Hs.
+  pose proof (setup_layer_quiet_gen (nrun_ev w) (fun _ _ => eq_refl) (S (nlayers (lw w))) l p1) as Hs.
   destruct (setup_layer w (S (nlayers (lw w))) l p1) as [p2 exc]. simpl in Hs. destruct exc.
   - cbn [fst snd ps_ev ps_ran]. lia.
   - cbn [fst snd]. rewrite Hreps, repeat1_ran. cbn [ps_ev]. lia.
@@ -67,13 +68,13 @@ Proof.
     assert (c1 = false) by (simpl in E; congruence). subst c1.
     destruct (setup_layer w (S (nlayers (lw w))) l p1) as [p2 exc]. destruct exc; reflexivity. }
   destruct (run_layer w o l ps_init) as [p1 c1]. simpl in Hc, H. subst c1. unfold tear_down_unneeded.
-  pose proof (td_loop_quiet w nstart_ev (fun _ _ => eq_refl) (fun _ => eq_refl)
+  pose proof (td_loop_quiet w (nrun_ev w) (fun _ _ => eq_refl) (fun _ => eq_refl)
                 (rev (order_by_bases (lw w) (filter (fun x => negb (mem x [])) (ps_setup p1)))) true p1) as Ht.
   destruct (td_loop w _ true p1) as [p2 c2]. simpl in Ht. cbn [c_ev c_ran]. rewrite Ht, H. simpl. lia.
 Qed.
 
 Lemma resume_seq_ran : forall ls ran f e,
-  let '(cs, ran', _, _) := resume_seq w o ls ran f e in ran' = ran + sum_children nstart_ev cs.
+  let '(cs, ran', _, _) := resume_seq w o ls ran f e in ran' = ran + sum_children (nrun_ev w) cs.
 Proof.
   induction ls as [|l ls IH]; intros ran f e; simpl; [lia|].
   destruct (o_x o && match f, e with [], [] => false | _, _ => true end); [simpl; lia|].
@@ -81,7 +82,7 @@ Proof.
   destruct (resume_seq w o ls _ _ _) as [[[cs r'] f'] e']. simpl. rewrite child_ran. lia.
 Qed.
 
-Theorem run_ran : r_ran (run w o) = st (r_parent (run w o)) + sum_children nstart_ev (r_children (run w o)).
+Theorem run_ran : r_ran (run w o) = st (r_parent (run w o)) + sum_children (nrun_ev w) (r_children (run w o)).
 Proof.
   unfold run.
   set (A := if 1 <? o_procs o then _ else _).
@@ -92,12 +93,12 @@ Proof.
       destruct (parent_loop w o (ordered_layers w) ps_init 0 0) as [[[[p' ran'] rest] resume] n']. simpl in H. lia. }
   destruct A as [[[[p1 ran1] rest] resume] n1].
   set (B := if resume then _ else _).
-  assert (HB : let '(cs, ran2, _, _) := B in ran2 = ran1 + sum_children nstart_ev cs).
+  assert (HB : let '(cs, ran2, _, _) := B in ran2 = ran1 + sum_children (nrun_ev w) cs).
   { unfold B. destruct resume; [apply resume_seq_ran | simpl; lia]. }
   destruct B as [[[cs ran2] f2] e2].
   unfold tear_down_unneeded.
   match goal with |- context [td_loop w ?ord true ?p2] =>
-    pose proof (td_loop_quiet w nstart_ev (fun _ _ => eq_refl) (fun _ => eq_refl) ord true p2) as Ht; destruct (td_loop w ord true p2) as [p3 c3] end.
+    pose proof (td_loop_quiet w (nrun_ev w) (fun _ _ => eq_refl) (fun _ => eq_refl) ord true p2) as Ht; destruct (td_loop w ord true p2) as [p3 c3] end.
   simpl in Ht. cbn [r_ran r_parent r_children]. rewrite Ht. lia.
 Qed.
 End N.
